@@ -1042,7 +1042,7 @@ var corpus = []string{
 	"render-styledown (str:join '' [(repeat 31 a)])\"\u597d\\n\"(str:join '' [(repeat 31 ' ')])\"\u597d\\n\"",
 	"put [a b][1..0]", "put 'abc'[1..-9223372036854775808]", "put [a b c][(num 1e18)]", "put (num 1/3)[0]", "put \"a\\xffb\"[1]", "var l = [a b]; set l[2] = c",
 	"printf '%[5]d %[0]d %*d' 3", "order [(num nan) 1 a]", "order &less-than={|a b| put x } [b a]", "order &key={|x| fail k } [b a]", "compare (num nan) (num nan)", "base 1 5", "base 36 -9223372036854775808",
-	"randint 5 1", "randint 0 0", "randint 3 3", "randint -1 -1", "randint 9223372036854775807 9223372036854775808", "-randseed 18446744073709551616", "take -1 [a]", "drop -1 [a]", "range 1 10 &step=0 | take 1", "range 0 1 &step=(num 1e-320) | take 2",
+	"randint 5 1", "randint (num -3) 9223372036854775807", "randint -9223372036854775808 9223372036854775807", "randint -1 9223372036854775807", "echo | ns $nil | keys (one)", "randint 0 0", "randint 3 3", "randint -1 -1", "randint 9223372036854775807 9223372036854775808", "-randseed 18446744073709551616", "take -1 [a]", "drop -1 [a]", "range 1 10 &step=0 | take 1", "range 0 1 &step=(num 1e-320) | take 2",
 	"from-json < f1", "echo '[1, {\"a\": null}]' | from-json", "put (num nan) | to-json", "to-json [$nop~]", "from-terminated '' < in", "to-terminated \"\\x00\\x00\" [a]", "read-upto '' < in",
 	"flag:parse [-a] [[a]]", "flag:parse-getopt [--=x] [[&short=a]]", "flag:parse-getopt [-a] [[&short=ab]]", "flag:call {|&a=1 &a-b=2| } [--a-b x]", "flag:call $nop~ [a]",
 	"re:replace '(' x y", "re:find 'a{1000}{1000}' a", "re:replace a {|x| put $x $x } aa", "re:replace a {|x| put [$x] } aa", "re:awk {|@a| put $a[5] } < in", "re:split &max=0 a banana",
@@ -1116,9 +1116,9 @@ func Spec() *mon.Spec {
 		ParentSetup:   parentSetup,
 		Phases: []mon.Phase{
 			{Name: "corpus", Quick: len(corpus), Thorough: len(corpus), Run: runCorpus, Timeout: 60 * time.Second},
-			{Name: "calls", Quick: scale(30000), Thorough: scale(600000), Run: runCalls, Timeout: 60 * time.Second},
-			{Name: "redir", Quick: scale(6000), Thorough: scale(100000), Run: runRedir, Timeout: 60 * time.Second},
-			{Name: "lang", Quick: scale(8000), Thorough: scale(150000), Run: runLang, Timeout: 60 * time.Second},
+			{Name: "calls", Quick: scale(30000), Thorough: scale(240000), Run: runCalls, Timeout: 60 * time.Second},
+			{Name: "redir", Quick: scale(6000), Thorough: scale(40000), Run: runRedir, Timeout: 60 * time.Second},
+			{Name: "lang", Quick: scale(8000), Thorough: scale(60000), Run: runLang, Timeout: 60 * time.Second},
 			{Name: "ports", Quick: scale(480), Thorough: scale(6000), Run: runPorts, Timeout: 60 * time.Second},
 		},
 		Floors: map[string]int{
